@@ -18,7 +18,9 @@ import (
 // index per segment pair so that "other segments" exist, and one rotated metrics segment) and shuts down
 // gracefully; incarnation 1 boots and runs a fixed query suite.
 func genDamageNode(r *rand.Rand) *plan.Plan {
-	k := plan.Knobs{Sched: true, Procs: 2, PQS: &boolF, Aggs: &boolF}
+	// one search worker on half of the nodes: then one column reader visits the blocks of a segment one after the
+	// other and what it decoded for the previous block is still in its buffers when a damaged block follows
+	k := plan.Knobs{Sched: true, Procs: []int{1, 2}[r.IntN(2)], PQS: &boolF, Aggs: &boolF}
 	k.CardLimit = []int{3, 0}[r.IntN(2)]
 	p := &plan.Plan{Knobs: k, Params: map[string]any{}}
 	inc := plan.Incarnation{Boot: "full", SchedSeed: r.Uint64()>>11 | 1}
@@ -241,6 +243,8 @@ func damageOracle(prop string, res *RunResult) []Violation {
 // the timestamp column file is named by the hash of its column name like every other column file
 var tsColSuffix = fmt.Sprintf("_%d.csg", xxh64("timestamp"))
 
+var filterColSuffix = [2]string{fmt.Sprintf("_%d.csg", xxh64("level")), fmt.Sprintf("_%d.csg", xxh64("code"))}
+
 func fileKindDamage(p string) string {
 	base := filepath.Base(p)
 	switch {
@@ -323,6 +327,9 @@ func runC18(c *Ctx) {
 	for nd := 0; nd < nNodes && !c.Stopped(); nd++ {
 		r := c.Rng(uint64(nd) + 1)
 		base := genDamageNode(r)
+		if f := os.Getenv("VERIF_C18_DUMPBASE"); f != "" {
+			_ = (&replayFileOut{Property: "C18", Plan: base}).save(fmt.Sprintf("%s.%d.json", f, nd))
+		}
 		base.Property = "C18"
 		base.Seed = c.Seed*1_000_003 + uint64(nd)
 		var files map[string]int64
@@ -406,6 +413,18 @@ func runC18(c *Ctx) {
 				}
 				for kx := int64(0); kx < 10; kx++ {
 					pick = append(pick, Damage{BeforeInc: 1, File: f, Op: "trunc", At: files[f] * (2*kx + 1) / 20})
+				}
+			}
+			// the columns the suite filters on (`level=error OR code>=500`): eight evenly spread byte flips in each
+			// of their files, so that blocks after the first are hit too (a block that fails its checksum must be
+			// skipped with an error, never answered from what the reader decoded for the block before it)
+			for _, f := range names {
+				base := filepath.Base(f)
+				if !strings.HasSuffix(base, filterColSuffix[0]) && !strings.HasSuffix(base, filterColSuffix[1]) {
+					continue
+				}
+				for kx := int64(0); kx < 8; kx++ {
+					pick = append(pick, Damage{BeforeInc: 1, File: f, Op: "flip", At: files[f] * (2*kx + 1) / 16, Val: 1 << uint(kx%8)})
 				}
 			}
 			dmgs = pick
@@ -517,4 +536,18 @@ func xxh64(str string) uint64 {
 	h *= p3
 	h ^= h >> 32
 	return h
+}
+
+// replayFileOut writes a plan in replay-file format (development aid: VERIF_C18_DUMPBASE).
+type replayFileOut struct {
+	Property string     `json:"property"`
+	Plan     *plan.Plan `json:"plan"`
+}
+
+func (r *replayFileOut) save(path string) error {
+	b, err := json.Marshal(r)
+	if err != nil {
+		return err
+	}
+	return os.WriteFile(path, b, 0o644)
 }
